@@ -59,7 +59,10 @@ static inline void verif_set_canon(ascon_state_t *st, spec_state s)
         st->W[2 * i] = verif_even_bits(s.x[i]);
         st->W[2 * i + 1] = verif_even_bits(s.x[i] >> 1);
 #elif defined(ASCON_BACKEND_SLICED64)
-        st->S[i] = s.x[i];
+        /* stored byte-wise (little-endian host word): storing through S[] and then
+         * accessing the same bytes through B[] (ascon_add_bytes) gave wrong results
+         * in CBMC 6.11's field-sensitive handling of this union; byte stores do not */
+        { unsigned j; for (j = 0; j < 8; ++j) st->B[8 * i + j] = (uint8_t)(s.x[i] >> (8 * j)); }
 #else
         unsigned j;
         for (j = 0; j < 8; ++j)
